@@ -6,6 +6,31 @@ props = [json.loads(l) for l in open(os.path.join(here, 'properties.jsonl'))]
 
 MC = "model_checking"
 checks = {
+ "C06": dict(
+    technique="stateless exploration of every map iteration order (deviation-bounded DFS over rewritten map ranges) x explicit-state BFS over builder-API histories and decoded documents, with validity / duplicate-member / reference-model / order oracles",
+    text="On a build where every map range of the package is an explorer-owned choice point, each value (all documents of cost <= d, the full product of x-order values on 2 and 3 properties, every distinct value reachable by <= k builder calls with hostile names) is encoded under every map order within 2 deviations; every output must be an error or valid JSON without repeated members, byte-identical across orders, equal to the reference model of the calls, with properties ordered by (x-order, name). Determinism is therefore enumerated, not hoped for across runs.",
+    note="Map ranges inside package spec are owned; encoding/json sorts map keys itself. The builder reference model is hand-written per call (h/c06.go). Deterministic cases are replayed on the un-instrumented build (conformance).",
+    ref="3 C06"),
+ "C07": dict(
+    technique="exhaustive enumeration of all byte strings up to a length bound over a JSON symbol alphabet, all single-position mutations of all seed documents and bounded deep nestings, into every exported type, with worker-process isolation for fatal crashes",
+    text="Every string of length <= 4 (quick) / 5 (thorough) over 14 JSON symbols and every single mutation (19 replacement values, delete, duplicate, case variant, wrap) of every seed document is decoded into every exported data type of the package (list generated from the type-checked tree); a panic, a process death, or a decode->encode result that is not a byte-exact fixed point is a violation.",
+    note="Hangs inside encoding/json are only bounded by the run deadline. Member names that case-fold onto a keyword are checked for totality only, as the property says. OrderSchemaItem(s) are encoder-side helpers without a decoder and are checked for totality only.",
+    ref="3 C07"),
+ "C13": dict(
+    technique="exhaustive enumeration of the product alphabet of reference strings with print/parse, JSON and gob round-trip oracles",
+    text="All ~24k reference strings of the scheme x authority x path x query x fragment product (plus opaque and zero references) go through print+parse, JSON (bare and in a holder) and gob (top level, slice element, map value); canonical text and the classification flags must be preserved and canonicalisation must be idempotent.",
+    note="Canonicalisation itself lives in the jsonreference dependency, which is part of the behaviour under test.",
+    ref="3 C13"),
+ "C14": dict(
+    technique="bounded-exhaustive enumeration of documents (C01 state space + explicit security/payload/zero-validation states) through gob encode/decode, one decode-target type per worker process",
+    text="Every document of the C01 state space whose target is Swagger, Operation, Parameter, Schema, Response or Ref (cost <= 1 at every route, <= 2 directly; one deeper in the thorough tier) plus explicit states for empty/non-empty security requirements and payloads with nulls/empties is gob-encoded and decoded; the JSON encodings before and after must be equal as JSON values. Each worker process transports a single type, so first-use state (lazy registration) is exercised too.",
+    note="JSON-level losses are C01's business. Known findings: zero-valued validations and empty arrays in payloads are dropped by gob.",
+    ref="3 C14"),
+ "C15": dict(
+    technique="exhaustive enumeration of every JSON pointer into every generated document, typed vs generic evaluation (differential oracle)",
+    text="For every document of the C01 state space (bounds as C14) every JSON pointer of its encoding is evaluated with go-openapi/jsonpointer on the typed value and on the generic decoding; pointers addressing a listed object kind or a plain member of one must agree.",
+    note="Pointer classification (kind / member / deeper) is done by the harness' own structural table (h/kinds.go); deeper pointers are counted, not judged.",
+    ref="3 C15"),
  "C01": dict(
     technique="bounded-exhaustive explicit-state enumeration of normal-form documents (all states of cost <= d over the Swagger/draft-4 vocabulary x every embedding route to the root) with a JSON-value round-trip oracle on the real codecs",
     text="Every normal-form object of each of the 17 kinds with at most d optional members / non-default choices (d=2 quick, d=3 thorough), over an alphabet of keywords read against the shipped meta-schemas, hostile member names and free-form payloads, is decoded and re-encoded directly and at every position where the kind can occur below the Swagger root (every container type on the route is also a decode target). The result is a coverage statement: no document in that space loses, gains or changes a member, except the listed known findings.",
